@@ -190,6 +190,21 @@ func runPool(ck *Check, bin, tier string, seed uint64, n, jobs int, runDir strin
 					mu.Unlock()
 					return
 				}
+				if hung {
+					// a watchdog firing is only a hang if the case does not finish in isolation with ten times the budget
+					// (a loaded machine or a legitimately expensive input must not be reported as non-termination)
+					if r2 := retryAlone(ck, bin, tier, seed, inflight, runDir, tag, race, extraEnv, 10*timeout); r2 != nil {
+						mu.Lock()
+						if r2.Stats == nil {
+							r2.Stats = map[string]int64{}
+						}
+						r2.Stats["slow_cases_finished_on_isolated_retry"]++
+						out.results[inflight] = r2
+						mu.Unlock()
+						ws.start = inflight + 1
+						continue
+					}
+				}
 				var ob observed
 				ob.Case = inflight
 				ob.Race = race
@@ -221,6 +236,38 @@ func runPool(ck *Check, bin, tier string, seed uint64, n, jobs int, runDir strin
 	}
 	wg.Wait()
 	return out
+}
+
+// retryAlone runs one case in a fresh worker with a larger budget; nil if it does not finish (or dies).
+func retryAlone(ck *Check, bin, tier string, seed uint64, cs int, runDir, tag string, race bool, extraEnv []string, budget time.Duration) *Result {
+	journal := filepath.Join(runDir, tag+".retry.journal")
+	os.Remove(journal)
+	errf, _ := os.Create(filepath.Join(runDir, tag+".retry.stderr"))
+	defer errf.Close()
+	wdir := filepath.Join(runDir, tag+".retry.d")
+	os.MkdirAll(wdir, 0755)
+	args := []string{"work", "-prop", ck.ID, "-tier", tier, "-seed", strconv.FormatUint(seed, 10), "-k", "0", "-stride", "1", "-start", strconv.Itoa(cs), "-n", strconv.Itoa(cs + 1), "-journal", journal, "-workdir", wdir}
+	if race {
+		args = append(args, "-race")
+	}
+	cmd := exec.Command(bin, args...)
+	cmd.Stdout, cmd.Stderr = errf, errf
+	cmd.Env = append(os.Environ(), extraEnv...)
+	cmd.SysProcAttr = &syscall.SysProcAttr{Setpgid: true}
+	if cmd.Start() != nil {
+		return nil
+	}
+	done := make(chan error, 1)
+	go func() { done <- cmd.Wait() }()
+	select {
+	case <-done:
+	case <-time.After(budget):
+		syscall.Kill(-cmd.Process.Pid, syscall.SIGKILL)
+		<-done
+		return nil
+	}
+	res, _, _ := readJournal(journal)
+	return res[cs]
 }
 
 func readJournal(path string) (res map[int]*Result, inflight int, finished bool) {
